@@ -434,6 +434,12 @@ namespace Pistache::Http::Experimental
                 auto connection = timerIt->second.lock();
                 if (connection)
                 {
+                    // The answer to the request that timed out may still arrive: on
+                    // this connection it would be taken for the answer to the next
+                    // request. Give the connection up before it can be used again.
+                    connections.erase(connection->fd());
+                    connection->close();
+
                     connection->handleTimeout();
                     timeouts.erase(fd);
                 }
@@ -1115,11 +1121,25 @@ namespace Pistache::Http::Experimental
                     break;
                 }
 
+                auto onDone = [this, conn]() {
+                    pool.releaseConnection(conn);
+                    processRequestQueue();
+                };
+
+                if (!conn->isConnected())
+                {
+                    // The connection was closed (by the server, or given up after a
+                    // time-out): connect again before the request is sent, as
+                    // doRequest() does
+                    conn->asyncPerform(data->request, std::move(onDone))
+                        .then([data](Response response) { data->resolve(std::move(response)); },
+                              [data](std::exception_ptr exc) { data->reject(exc); });
+                    conn->connect(helpers::httpAddr(domain));
+                    continue;
+                }
+
                 conn->performImpl(data->request, std::move(data->resolve),
-                                  std::move(data->reject), [this, conn]() {
-                                      pool.releaseConnection(conn);
-                                      processRequestQueue();
-                                  });
+                                  std::move(data->reject), std::move(onDone));
             }
         }
     }
